@@ -324,6 +324,8 @@ func C09(ctx *core.Ctx, r *core.Report) {
 	// 4. Choose implementations iterate deterministically
 	c09ChooseSiblings(ctx, r)
 	impliedCasePerNode(ctx, r)
+	c09PresenceLooksThroughNestedChoice(ctx, r)
+	c09ClearClears(ctx, r)
 	memoDebug(ctx, r)
 	textCmpDebug(ctx, r)
 	r.Count("instances:no-stale-verdicts(tables of data-derived answers)", noStaleVerdicts(ctx, r, append(scopeFuncs(ctx, "node"), scopeFuncs(ctx, "nodeutil")...), "node", "nodeutil"))
